@@ -377,7 +377,7 @@ PROPS.update({
     relevant=lambda c: kind(c) in ('sl', 'skip', 'crashpt', 'slx', 'slxc', 'session', 'world'),
     pre='build_cclient',
     project=lambda c: proj_session('all')(c) if kind(c) == 'session' else (proj_world('queries')(c) if kind(c) == 'world' else proj_sl(c)),
-    lean_modules=['ClockBound.Properties.C03', 'ClockBound.Properties.C03b'],
+    lean_modules=['ClockBound.Properties.C03', 'ClockBound.Properties.C03b', 'ClockBound.Properties.SessionModel'],
     technique='Lean 4 proof: coherence-based monotonicity invariant over all executions + catch-up theorem for fresh reads on a quiescent log + generation potential function for the 32767 exception; same schedule-level correspondence as C02',
     level_text='Theorems C03.accepted_monotone / cache_is_accepted_publication (the generation message behind a reader\'s cached snapshot never moves backwards), catches_up (no update in flight + fresh reads + cached generation differs => the call returns the latest completed publication), same_generation_serves_cache and equal_generation_same_message (the documented exception needs >= 32767 completed updates).',
     level_note='Partial: as C02; "fresh" reads model a quiescent memory system (sequential consistency).',
